@@ -1,11 +1,37 @@
 import Cherab.Model.Caching
 import Cherab.Lemmas.CachingMemo
+import Cherab.Lemmas.CachingGrid
+import Cherab.Lemmas.CachingAlg
+import Cherab.Lemmas.CachingInterp
+import Cherab.Lemmas.CachingMl3
+import Cherab.Lemmas.CachingEval
+import Mathlib.Algebra.Order.Ring.Rat
 
 /-!
 # C14 — caching functions are history-independent and interpolate the cached function
+
+Property theorems about `Cherab/Model/Caching.lean` (transcribed from caching{1,2,3}d.pyx and utility.pyx).
+
+clause of the property                         theorem(s)
+---------------------------------------------  -----------------------------------------------------------------
+value does not depend on earlier evaluations   `memo_transparent`, `history_independent`, `cache_holds_function_values`,
+                                               `calls_exact` (generic in the `Spec`, hence 1-D/2-D/3-D)
+equals the wrapped function at every node      `interpolates_nodes_1d/2d`, `interpolates_nodes_3d_partial`
+reproduces functions linear in each coordinate `reproduces_affine_1d`, `reproduces_multilinear_2d`, `…_3d_partial`
+O(h²) approximation                            not proved (S only)
+outside: raise or call through                 `outside_policy`, `outside_area_1d`, `inside_area_is_cached`
+function bounds only rescale                   `normalisation_cancels_1d/2d`, `…_3d_partial`
+find_index                                     `find_index_spec`, `find_index_unique`, `node_grid_sorted`
+nonsingular constraint systems                 `system_nonsingular_1d/2d/3d`, `system_solvable_1d`
+
+External functions are parameters: `ExtOK E` says `powi = (^)` and "when `solve` returns, the vector satisfies every
+equation of the system" (numpy.linalg.solve, trusted).  The `_3d_partial` theorems additionally take the 3-D coordinate
+denormalisation identity `Denorm3` (a polynomial identity in 64 coefficients, checked bit-exactly by the correspondence
+run; its 1-D and 2-D instances `denorm1`, `denorm2` are proved).
 -/
 namespace Cherab.Props.C14
 set_option linter.unusedSectionVars false
+set_option linter.unusedSimpArgs false
 open Cherab.Caching
 
 /-! ## history independence (all three classes: the machine is generic in the `Spec`) -/
@@ -66,7 +92,7 @@ theorem outside_policy (S : Spec α P ν κ C) (E : Env α P) (nbe : Bool) (st :
 
 end Memo
 
-/-! ## find_index -/
+/-! ## find_index, the node grid, inside / outside -/
 section Find
 variable {α : Type} [Field α] [LinearOrder α] [IsStrictOrderedRing α]
 
@@ -76,5 +102,174 @@ theorem find_index_spec (x : Nat → α) (top : Nat) (v : α) (h0 : x 0 < v) (ht
     ∃ i : Nat, findIndex x top v 0 = (i : Int) ∧ i < top ∧ x i ≤ v ∧ v < x (i + 1) :=
   findIndex_bracket x top v h0 ht
 
+/-- all five exits of `find_index` (padding 0): on the ends, below, above, bracketed -/
+theorem find_index_cases (x : Nat → α) (top : Nat) (v : α) :
+    (v = x 0 ∧ findIndex x top v 0 = 0) ∨
+    (v ≠ x 0 ∧ v = x top ∧ findIndex x top v 0 = (top : Int) - 1) ∨
+    (v < x 0 ∧ findIndex x top v 0 = -2) ∨
+    (x top < v ∧ x 0 < v ∧ findIndex x top v 0 = (top : Int) + 1) ∨
+    (x 0 < v ∧ v < x top ∧ findIndex x top v 0 = (bisect x v top 0 top : Nat)) :=
+  findIndex_cases x top v
+
+/-- on an increasing array the bracketing index is unique, so `find_index` returns *the* cell -/
+theorem find_index_unique (ax : Axis α) (hs : ax.Sorted) (p : α) (i : Nat) (h1 : 1 ≤ i) (h2 : i + 2 ≤ ax.top)
+    (hl : ax.dom i ≤ p) (hu : p < ax.dom (i + 1)) : cellOf ax p = some i :=
+  cellOf_of_bracket ax hs p i h1 h2 hl hu
+
+/-- the node array built by the constructor is strictly increasing -/
+theorem node_grid_sorted (trunc : α → Nat) (mn mx dx : α) (h : mn < mx) (hd : EPS < dx) :
+    (mkAxis trunc mn mx dx).Sorted := mkAxis_sorted trunc mn mx dx h hd
+
+/-- every point of the caching area `[mn, mx]` lies in a cell (no exception inside the area) -/
+theorem inside_area_is_cached (trunc : α → Nat) (mn mx dx : α) (h : mn < mx) (hd : EPS < dx) (p : α)
+    (h1 : mn ≤ p) (h2 : p ≤ mx) : ∃ i, cellOf (mkAxis trunc mn mx dx) p = some i := by
+  obtain ⟨a, b⟩ := mkAxis_covers trunc mn mx dx p h1 h2
+  exact cellOf_inside _ (mkAxis_sorted trunc mn mx dx h hd) (mkAxis_top trunc mn mx dx) p a b
+
+/-- beyond the ε-extended range no cell is found … -/
+theorem outside_area_no_cell (trunc : α → Nat) (mn mx dx : α) (h : mn < mx) (hd : EPS < dx) (p : α)
+    (ho : p < mn - EPS ∨ mx + EPS ≤ p) : cellOf (mkAxis trunc mn mx dx) p = none := by
+  have hn := nNodes_ge trunc mn mx dx
+  apply cellOf_outside _ (mkAxis_sorted trunc mn mx dx h hd)
+  simp only [mkAxis, Nat.add_sub_cancel]
+  rw [nodeAt_one _ _ _ _ hn, nodeAt_last _ _ _ _ hn]
+  exact ho
+
+/-- … so Caching1D raises, or calls the wrapped function directly, without touching the cache -/
+theorem outside_area_1d (E : Ext α) (trunc : α → Nat) (mn mx dx : α) (h : mn < mx) (hd : EPS < dx) (nm : Norm α)
+    (En : Env α α) (nbe : Bool) (st : St α Nat Nat (Nat → α)) (p : α) (ho : p < mn - EPS ∨ mx + EPS ≤ p) :
+    evalStep (spec1 E (mkAxis trunc mn mx dx) nm) En nbe st p =
+      (st, if nbe then .val (En.f p) else .raise, if nbe then [p] else []) :=
+  outside_policy _ En nbe st p (outside_area_no_cell trunc mn mx dx h hd p ho)
+
+/-- in 2-D / 3-D one coordinate outside suffices -/
+theorem outside_area_2d (E : Ext α) (ax ay : Axis α) (nm : Norm α) (En : Env α (α × α)) (nbe : Bool)
+    (st : St α (Nat × Nat) (Nat × Nat) (Nat → α)) (p : α × α) (ho : cellOf ax p.1 = none ∨ cellOf ay p.2 = none) :
+    evalStep (spec2 E ax ay nm) En nbe st p = (st, if nbe then .val (En.f p) else .raise, if nbe then [p] else []) := by
+  apply outside_policy
+  show cellOf2 ax ay p = none
+  unfold cellOf2
+  rcases ho with h | h
+  · rw [h]
+  · rw [h]; cases cellOf ax p.1 <;> rfl
+
+theorem outside_area_3d (E : Ext α) (ax ay az : Axis α) (nm : Norm α) (En : Env α (α × α × α)) (nbe : Bool)
+    (st : St α (Nat × Nat × Nat) (Nat × Nat × Nat) (Nat → α)) (p : α × α × α)
+    (ho : cellOf ax p.1 = none ∨ cellOf ay p.2.1 = none ∨ cellOf az p.2.2 = none) :
+    evalStep (spec3 E ax ay az nm) En nbe st p =
+      (st, if nbe then .val (En.f p) else .raise, if nbe then [p] else []) := by
+  apply outside_policy
+  show cellOf3 ax ay az p = none
+  unfold cellOf3
+  rcases ho with h | h | h
+  · rw [h]
+  · rw [h]; cases cellOf ax p.1 <;> rfl
+  · rw [h]; cases cellOf ax p.1 <;> cases cellOf ay p.2.1 <;> rfl
+
 end Find
+
+/-! ## the constraint systems are nonsingular -/
+section Systems
+variable {α : Type} [Field α] [LinearOrder α] [IsStrictOrderedRing α]
+
+/-- 1-D: two solutions of a cell's system coincide (explicit elimination) … -/
+theorem system_nonsingular_1d (ax : Axis α) (i : Nat) (d c c' : Nat → α) (hne : ax.xn i ≠ ax.xn (i + 1))
+    (h : IsSol1 ax i d c) (h' : IsSol1 ax i d c') : ∀ k, k < 4 → c k = c' k := unique1 ax i d c c' hne h h'
+
+/-- … and one exists: the cubic Hermite polynomial with central-difference slopes -/
+theorem system_solvable_1d (ax : Axis α) (i : Nat) (d : Nat → α) (hne : ax.xn i ≠ ax.xn (i + 1)) :
+    ∃ c, IsSol1 ax i d c := ⟨_, hermite_solves ax i d hne⟩
+
+/-- 2-D: the 16×16 system is the tensor product of two 1-D systems, hence nonsingular -/
+theorem system_nonsingular_2d (ax ay : Axis α) (cell : Nat × Nat) (D : Nat → Nat → α) (c c' : Nat → α)
+    (hx : ax.xn cell.1 ≠ ax.xn (cell.1 + 1)) (hy : ay.xn cell.2 ≠ ay.xn (cell.2 + 1))
+    (h : IsSol2 ax ay cell D c) (h' : IsSol2 ax ay cell D c') : ∀ k, k < 16 → c k = c' k :=
+  unique2 ax ay cell D c c' hx hy h h'
+
+/-- 3-D: likewise for the 64×64 system -/
+theorem system_nonsingular_3d (ax ay az : Axis α) (cell : Nat × Nat × Nat) (D : Nat → Nat → Nat → α) (c c' : Nat → α)
+    (hx : ax.xn cell.1 ≠ ax.xn (cell.1 + 1)) (hy : ay.xn cell.2.1 ≠ ay.xn (cell.2.1 + 1))
+    (hz : az.xn cell.2.2 ≠ az.xn (cell.2.2 + 1))
+    (h : IsSol3 ax ay az cell D c) (h' : IsSol3 ax ay az cell D c') : ∀ k, k < 64 → c k = c' k :=
+  unique3 ax ay az cell D c c' hx hy hz h h'
+
+end Systems
+
+/-! ## Caching1D: nodes, affine functions, function bounds -/
+section OneD
+variable {α : Type} [Field α] [LinearOrder α] [IsStrictOrderedRing α]
+
+theorem interpolates_nodes_1d (E : Ext α) (hE : ExtOK E) (ax : Axis α) (hax : AxisOK ax) (nm : Norm α)
+    (hnm : NormOK nm) (f : α → α) (nbe : Bool) (i : Nat) (h1 : 1 ≤ i) (h2 : i + 2 ≤ ax.top) (v : α)
+    (h : evalPure (spec1 E ax nm) (envOf f nm) nbe (ax.dom i) = .val v) : v = f (ax.dom i) := by
+  have hc : cellOf ax (ax.dom i) = some i :=
+    cellOf_of_bracket ax hax.sorted _ i h1 h2 le_rfl (hax.sorted i (i + 1) (by omega) (by omega))
+  obtain ⟨c, hsol, hv⟩ := evalPure1_val E hE ax nm f nbe _ v i hc h
+  obtain ⟨i', rfl⟩ : ∃ i', i = i' + 1 := ⟨i - 1, by omega⟩
+  rw [hv, denorm1 E hE.powi, ← hax.xn_eq, (knot1 _ _ _ _ hsol).1, d1_eq _ _ _ _ 1 (by norm_num), hnm.unapply]
+
+theorem reproduces_affine_1d (E : Ext α) (hE : ExtOK E) (ax : Axis α) (hax : AxisOK ax) (nm : Norm α)
+    (hnm : NormOK nm) (f : α → α) (a b : α) (hf : ∀ x, f x = a + b * x) (nbe : Bool) (p : α) (i : Nat)
+    (hc : cellOf ax p = some i) (v : α)
+    (h : evalPure (spec1 E ax nm) (envOf f nm) nbe p = .val v) : v = a + b * p := by
+  obtain ⟨h1, h2, _, _⟩ := cellOf_some ax p i hc
+  obtain ⟨c, hsol, hv⟩ := evalPure1_val E hE ax nm f nbe _ v i hc h
+  obtain ⟨i', rfl⟩ : ∃ i', i = i' + 1 := ⟨i - 1, by omega⟩
+  have hd := hax.dinv_ne
+  have hdl := hnm.delta_ne
+  have hcand := affine_solves1 ax i' ((a + b * ax.xmin - nm.dmin) * nm.deltaInv) (b * nm.deltaInv / ax.dinv)
+    (hax.xn_ne i' (i' + 2) (by omega) (by omega)) (hax.xn_ne (i' + 1) (i' + 3) (by omega) (by omega))
+  have hcand' := isSol1_congr ax (i' + 1) _ (d1 ax nm f (i' + 1)) _ (by
+    intro k hk
+    rw [d1_eq _ _ _ _ k hk, hf, hax.dom_eq]
+    simp only [Norm.apply]
+    field_simp
+    ring) hcand
+  have hu := unique1 ax (i' + 1) _ c _ (hax.xn_ne (i' + 1) (i' + 2) (by omega) (by omega)).symm hsol hcand'
+  rw [hv, denorm1 E hE.powi]
+  simp only [poly1, hu 0 (by norm_num), hu 1 (by norm_num), hu 2 (by norm_num), hu 3 (by norm_num)]
+  simp [hnm.inv]
+  field_simp
+  ring
+
+theorem normalisation_cancels_1d (E : Ext α) (hE : ExtOK E) (ax : Axis α) (hax : AxisOK ax) (nm nm' : Norm α)
+    (hnm : NormOK nm) (hnm' : NormOK nm') (f : α → α) (nbe : Bool) (p : α) (v v' : α)
+    (h : evalPure (spec1 E ax nm) (envOf f nm) nbe p = .val v)
+    (h' : evalPure (spec1 E ax nm') (envOf f nm') nbe p = .val v') : v = v' := by
+  cases hc : cellOf ax p with
+  | none =>
+    simp [evalPure, spec1, hc] at h h'
+    cases nbe <;> simp [envOf] at h h'
+    rw [← h, ← h']
+  | some i =>
+    obtain ⟨h1, h2, _, _⟩ := cellOf_some ax p i hc
+    obtain ⟨c, hsol, hv⟩ := evalPure1_val E hE ax nm f nbe _ v i hc h
+    obtain ⟨c', hsol', hv'⟩ := evalPure1_val E hE ax nm' f nbe _ v' i hc h'
+    obtain ⟨i', rfl⟩ : ∃ i', i = i' + 1 := ⟨i - 1, by omega⟩
+    have raw := norm_solves1 ax (i' + 1) _ c (-(nm.dmin * nm.deltaInv)) nm.delta hsol
+    have raw' := norm_solves1 ax (i' + 1) _ c' (-(nm'.dmin * nm'.deltaInv)) nm'.delta hsol'
+    have hd := hnm.delta_ne
+    have hd' := hnm'.delta_ne
+    have e1 := isSol1_congr ax (i' + 1) _ (fun k => f (ax.dom (i' + k))) _ (by
+      intro k hk
+      simp only [d1_eq _ _ _ _ k hk, Norm.apply, hnm.inv]
+      field_simp; ring) raw
+    have e2 := isSol1_congr ax (i' + 1) _ (fun k => f (ax.dom (i' + k))) _ (by
+      intro k hk
+      simp only [d1_eq _ _ _ _ k hk, Norm.apply, hnm'.inv]
+      field_simp; ring) raw'
+    have hu := unique1 ax (i' + 1) _ _ _ (hax.xn_ne (i' + 1) (i' + 2) (by omega) (by omega)).symm e1 e2
+    rw [hv, hv', denorm1 E hE.powi, denorm1 E hE.powi]
+    have u0 := hu 0 (by norm_num)
+    have u1 := hu 1 (by norm_num)
+    have u2 := hu 2 (by norm_num)
+    have u3 := hu 3 (by norm_num)
+    simp [e0, hnm.inv, hnm'.inv] at u0 u1 u2 u3
+    field_simp at u0 u1 u2 u3
+    simp only [poly1]
+    linear_combination u0 + u1 * ((p - ax.xmin) * ax.dinv) + u2 * ((p - ax.xmin) * ax.dinv) ^ 2
+      + u3 * ((p - ax.xmin) * ax.dinv) ^ 3
+
+end OneD
+
 end Cherab.Props.C14
